@@ -37,14 +37,14 @@ func init() {
 	// registered from c02.go: genC20 runs the arithmetic ops and then genC20Hover
 	replayers["c20.hover"] = func(c *Ctx, m map[string]any) map[string]any {
 		scen, _ := m["scen"].(map[string]any)
-		req := int(num(m["req"]))
+		req := int(c20num(m["req"]))
 		run := runHoverScenario(c, scen)
 		defer run.close()
 		return run.line(req, m["qs"].([]any), m["gt"])
 	}
 }
 
-func num(v any) float64 {
+func c20num(v any) float64 {
 	switch x := v.(type) {
 	case float64:
 		return x
@@ -163,7 +163,7 @@ func runHoverScenario(c *Ctx, scen map[string]any) *hoverRun {
 		wait()
 	}
 	for _, ev := range asMaps(scen["events"]) {
-		i := int(num(ev["f"]))
+		i := int(c20num(ev["f"]))
 		text, _ := ev["text"].(string)
 		srv.DidChange(ctx, &protocol.DidChangeTextDocumentParams{
 			TextDocument:   protocol.VersionedTextDocumentIdentifier{TextDocumentIdentifier: protocol.TextDocumentIdentifier{URI: run.uris[i]}, Version: 2},
@@ -514,7 +514,7 @@ func newHvPools(r *rand.Rand) *hvPools {
 	}
 }
 
-func digits(r *rand.Rand, n int, leadNonZero bool) string {
+func c20digits(r *rand.Rand, n int, leadNonZero bool) string {
 	b := make([]byte, n)
 	for i := range b {
 		b[i] = byte('0' + r.IntN(10))
@@ -548,7 +548,7 @@ func hvNumber(c *Ctx) (text, coef string, exp int) {
 	default:
 		intLen = 10 + r.IntN(6)
 	}
-	ip := digits(r, intLen, intLen > 1)
+	ip := c20digits(r, intLen, intLen > 1)
 	fracLen := 0
 	if r.IntN(5) >= 2 {
 		fracLen = 1 + r.IntN(12)
@@ -623,11 +623,11 @@ func hvNumber(c *Ctx) (text, coef string, exp int) {
 		i := strings.IndexAny(body, ",.")
 		return len(body)-i-1 == 3 && strings.Trim(body[:i], "0") != ""
 	}
-	fp := digits(r, fracLen, false)
+	fp := c20digits(r, fracLen, false)
 	text = build(fp)
 	for tries := 0; ambiguous(text) && fracLen > 0; tries++ {
 		fracLen = 4 + tries
-		fp = digits(r, fracLen, false)
+		fp = c20digits(r, fracLen, false)
 		e = 0
 		text = build(fp)
 	}
